@@ -527,7 +527,7 @@ theorem readIndexes_sound (cdda : Bool) (n : Nat) (b : List Nat) (hb : bytesOk b
             · rw [e1, e2, e3]; simp only [List.length_append]; omega
             · simp only [List.all_cons, Bool.and_eq_true, i3, and_true, indexOk, decide_eq_true_eq, u64Max, Bool.or_eq_true,
                 Bool.not_eq_true', beq_iff_eq]
-              refine ⟨⟨by omega, by omega⟩, ?_⟩
+              refine ⟨⟨by first | omega | exact decide_eq_true (by omega), by omega⟩, ?_⟩
               cases cdda with
               | false => left; rfl
               | true => right; simpa using hsec
@@ -614,13 +614,13 @@ theorem readTrack_sound (cdda : Bool) (b : List Nat) (hb : bytesOk b = true) (t 
                       Bool.not_eq_true', beq_iff_eq]
                     have hv : indexVecOk (if cdda = true then cueCddaIndexMax else cueNonCddaIndexMax) pts = true := by simpa using hiv
                     have hn0 : num.headD 0 ≠ 0 := by simpa using hnz
-                    refine ⟨⟨⟨⟨⟨⟨by omega, by omega⟩, by omega⟩, trivial⟩, hv⟩, ?_⟩, ?_⟩
+                    refine ⟨⟨⟨⟨⟨⟨by omega, by omega⟩, by first | omega | exact decide_eq_true (by omega)⟩, trivial⟩, hv⟩, ?_⟩, ?_⟩
                     · rw [List.all_eq_true] at i3 ⊢
                       intro i hi
                       have := i3 i hi
                       simp only [indexOk, Bool.and_eq_true, decide_eq_true_eq, Bool.or_eq_true, Bool.not_eq_true', beq_iff_eq] at this
-                      simp only [Bool.and_eq_true, decide_eq_true_eq, Bool.or_eq_true, Bool.not_eq_true', beq_iff_eq]
-                      exact this
+                      simp only [Bool.and_eq_true, Bool.or_eq_true, Bool.not_eq_true', beq_iff_eq, u64Max] at this ⊢
+                      exact ⟨⟨decide_eq_true this.1.1, decide_eq_true this.1.2⟩, this.2⟩
                     · cases cdda with
                       | false => left; rfl
                       | true => right; simpa using hsec
@@ -679,8 +679,9 @@ theorem readLead_sound (cdda : Bool) (b : List Nat) (hb : bytesOk b = true) (l :
     | ok v2 =>
       obtain ⟨num, r1⟩ := v2
       rw [h2] at h; dsimp only at h
-      split at h
-      · cases h
+      by_cases hnum : (num.headD 0 != (if cdda = true then cueLeadOutCdda else cueLeadOutNonCdda)) = true
+      · rw [if_pos hnum] at h; cases h
+      rw [if_neg hnum] at h
       cases h3 : takeBytes 12 r1 with
       | error e => rw [h3] at h; cases h
       | ok v3 =>
@@ -705,8 +706,9 @@ theorem readLead_sound (cdda : Bool) (b : List Nat) (hb : bytesOk b = true) (l :
               | ok v7 =>
                 obtain ⟨cnt, r5⟩ := v7
                 rw [h7] at h; dsimp only at h
-                split at h
-                · cases h
+                by_cases hcz : (cnt.headD 0 != 0) = true
+                · rw [if_pos hcz] at h; cases h
+                rw [if_neg hcz] at h
                 simp only [Except.ok.injEq, Prod.mk.injEq] at h
                 obtain ⟨rfl, rfl⟩ := h
                 obtain ⟨e1, l1⟩ := takeBytes_ok h1
@@ -752,6 +754,28 @@ theorem readCatalog_sound (cdda : Bool) (field cat : List Nat) (h : readCatalog 
   · right
     have := hc (by simpa using he)
     simpa using this
+
+theorem cueBytes_ok_len (c : Cue) (g1 : c.cdda = true ∨ c.catalog.length ≤ cueCatalogLen) (g2 : c.tracks.length + 1 ≤ 255)
+    (g3 : ∀ t ∈ c.tracks, t.points.length ≤ 255) :
+    ∃ bs, cueBytes c = .ok bs ∧ bs.length = 396 + (c.tracks.flatMap trackBytes).length + 36 := by
+  have hk : cueCatalogChecked = true := rfl
+  have c1 : ¬ ((!c.cdda && cueCatalogChecked && decide (c.catalog.length > cueCatalogLen)) = true) := by
+    simp only [hk, Bool.and_true, Bool.and_eq_true, Bool.not_eq_true', decide_eq_true_eq, not_and, Nat.not_lt]
+    intro hc
+    rcases g1 with h | h
+    · rw [h] at hc; cases hc
+    · exact h
+  have c2 : ¬ (c.tracks.length + 1 > 255) := by omega
+  have c3 : ¬ ((c.tracks.any fun t => decide (t.points.length > 255)) = true) := by
+    simp only [List.any_eq_true, decide_eq_true_eq, not_exists, not_and, Nat.not_lt]
+    exact g3
+  refine ⟨padTo cueCatalogLen c.catalog ++ beBytes 8 (if c.cdda then c.leadIn else 0) ++ [if c.cdda then 128 else 0]
+    ++ List.replicate 258 0 ++ [c.tracks.length + 1] ++ c.tracks.flatMap trackBytes ++ leadBytes c.cdda c.lead, ?_, ?_⟩
+  · simp only [cueBytes, c1, ↓reduceIte, c2, c3, Bool.false_eq_true]
+  · have : cueCatalogLen = 128 := rfl
+    simp only [List.length_append, padTo_length, beBytes_length, List.length_replicate, List.length_cons, List.length_nil,
+      leadBytes_length]
+    omega
 
 theorem parseCue_sound (b : List Nat) (hb : bytesOk b = true) (c : Cue) (h : parseCue b = .ok (c, [])) :
     c.wf = true ∧ ∃ bs, cueBytes c = .ok bs ∧ bs.length = b.length := by
@@ -819,8 +843,7 @@ theorem parseCue_sound (b : List Nat) (hb : bytesOk b = true) (c : Cue) (h : par
                   have hcnt := headD_lt cnt k5.1
                   have hli := beNat_lt_pow li k2.1 8 (by omega)
                   simp only [Bool.or_eq_true, beq_iff_eq, Bool.and_eq_true, decide_eq_true_eq, not_or, not_and] at hnt
-                  simp only [Bool.not_eq_true', Bool.and_eq_false_iff, not_or, Bool.not_eq_false, decide_eq_false_iff_not, Decidable.not_not,
-                    decide_eq_true_eq] at hch
+                  simp only [Bool.not_eq_true', Bool.and_eq_false_iff, not_or, Bool.not_eq_false, decide_eq_false_iff_not, Decidable.not_not] at hch
                   generalize hcd : (fl.headD 0 / 128 == 1) = cdda at *
                   have hcatlen : cat.length ≤ cueCatalogLen := by omega
                   constructor
@@ -831,19 +854,12 @@ theorem parseCue_sound (b : List Nat) (hb : bytesOk b = true) (c : Cue) (h : par
                     | true =>
                       simp only [↓reduceIte, Bool.and_eq_true, Bool.or_eq_true, beq_iff_eq, decide_eq_true_eq, u64Max]
                       exact ⟨by simpa using c3 rfl, by omega⟩
-                  · have hk : cueCatalogChecked = true := rfl
-                    have g1 : ¬ ((!cdda && cueCatalogChecked && decide (cat.length > cueCatalogLen)) = true) := by
-                      simp only [hk, Bool.and_true, Bool.and_eq_true, Bool.not_eq_true', decide_eq_true_eq, not_and, Nat.not_lt]
-                      intro _; exact hcatlen
-                    have g2 : ¬ (ts.length + 1 > 255) := by omega
-                    have g3 : ¬ ((ts.any fun t => decide (t.points.length > 255)) = true) := by
-                      simp only [List.any_eq_true, decide_eq_true_eq, not_exists, not_and, Nat.not_lt]
-                      exact t4
-                    refine ⟨_, by simp only [cueBytes, g1, ↓reduceIte, g2, g3], ?_⟩
-                    have hl0 : r5.length = 0 := rfl
-                    rw [e1, e2, e3, e4, e5]
-                    simp only [List.length_append, padTo_length, beBytes_length, List.length_replicate, List.length_cons, List.length_nil,
-                      leadBytes_length]
+                  · obtain ⟨bs, hbs, hbl⟩ := cueBytes_ok_len
+                      { cdda := cdda, catalog := cat, leadIn := if cdda = true then beNat li else 0, tracks := ts, lead := l }
+                      (Or.inr hcatlen) (by simp only; omega) t4
+                    refine ⟨bs, hbs, ?_⟩
+                    rw [hbl, e1, e2, e3, e4, e5]
+                    simp only [List.length_append]
                     have : cueCatalogLen = 128 := rfl
                     simp only [List.length_nil] at d4
                     omega
@@ -873,5 +889,159 @@ theorem parseBody_sound (ty size : Nat) (body : List Nat) (hb : bytesOk body = t
   | 5, h => exact sound_cuesheet size body hb hlen b h
   | 6, h => exact sound_picture size body hb hlen hsz b h
   | n + 7, h => simp only [parseBody] at h; split at h <;> cases h
+
+
+/-! ### blocks and block lists -/
+
+/-- whatever `readBlock` accepts satisfies the invariants and is written back by `writeBlock` (with
+    the same `last` flag) to exactly as many bytes as were consumed -/
+theorem readBlock_sound (bytes : List Nat) (hb : bytesOk bytes = true) (last : Bool) (b : Block) (rest : List Nat)
+    (h : readBlock bytes = .ok (last, b, rest)) :
+    blockWf b = true ∧ (∃ x, writeBlock last b = .ok x ∧ bytes.length = x.length + rest.length) ∧ bytesOk rest = true := by
+  unfold readBlock at h
+  split at h
+  · rename_i hd a b' c rest'
+    split at h
+    · split at h <;> cases h
+    rename_i hty
+    cases hp : parseBody (hd % 128) (beNat [a, b', c]) (rest'.take (beNat [a, b', c])) with
+    | error e => rw [hp] at h; cases h
+    | ok v =>
+      obtain ⟨blk, left⟩ := v
+      rw [hp] at h
+      dsimp only at h
+      split at h
+      · cases h
+      rename_i hchk
+      simp only [Except.ok.injEq, Prod.mk.injEq] at h
+      obtain ⟨rfl, rfl, rfl⟩ := h
+      simp only [Bool.or_eq_true, Bool.not_eq_true', bne_iff_ne, ne_eq, not_or, Bool.not_eq_false, Decidable.not_not, List.isEmpty_iff] at hchk
+      obtain ⟨hleft, hblen⟩ := hchk
+      subst hleft
+      have hbs : bytesOk (hd :: a :: b' :: c :: rest') = true := hb
+      simp only [bytesOk, List.all_cons, Bool.and_eq_true, decide_eq_true_eq] at hbs
+      obtain ⟨hhd, ha, hb', hc, hrest⟩ := hbs
+      have hsz : beNat [a, b', c] < 256 ^ 3 := beNat_lt [a, b', c] (by simp [bytesOk, ha, hb', hc])
+      have hmax : maxBlockSize = 2 ^ 24 - 1 := rfl
+      have hbody : bytesOk (rest'.take (beNat [a, b', c])) = true := bytesOk_take _ (by simpa [bytesOk] using hrest)
+      obtain ⟨w, hty', bs, hbs', hlen⟩ := parseBody_sound (hd % 128) (beNat [a, b', c]) _ hbody hblen (by omega) blk hp
+      refine ⟨w, ⟨[(if (hd / 128 == 1) then 128 else 0) + blk.type] ++ beBytes 3 bs.length ++ bs, ?_, ?_⟩, bytesOk_drop _ (by simpa [bytesOk] using hrest)⟩
+      · simp only [writeBlock, hbs']
+        have : ¬ bs.length > maxBlockSize := by omega
+        simp [this]
+      · simp only [List.length_cons, List.length_append, beBytes_length, List.length_nil, List.length_drop]
+        simp only [List.length_take] at hblen
+        omega
+  · cases h
+
+theorem readRest_nonempty (fuel : Nat) (s : Seen) (bytes : List Nat) (used : Nat) (bl : List Block) (u : Nat)
+    (h : readRest fuel s bytes used = .ok (bl, u)) : bl ≠ [] := by
+  cases fuel with
+  | zero => simp [readRest] at h
+  | succ fuel =>
+    simp only [readRest] at h
+    cases hb : readBlock bytes with
+    | error e => rw [hb] at h; cases h
+    | ok v =>
+      obtain ⟨last, b, rest⟩ := v
+      rw [hb] at h; dsimp only at h
+      cases hc : checkUnique s b with
+      | error e => rw [hc] at h; cases h
+      | ok s' =>
+        rw [hc] at h; dsimp only at h
+        split at h
+        · cases h; simp
+        · cases hr : readRest fuel s' rest (used + (bytes.length - rest.length)) with
+          | error e => rw [hr] at h; cases h
+          | ok w => rw [hr] at h; cases h; simp
+
+theorem readRest_sound (fuel : Nat) (s : Seen) (bytes : List Nat) (hb : bytesOk bytes = true) (used : Nat) (bl : List Block) (u : Nat)
+    (h : readRest fuel s bytes used = .ok (bl, u)) :
+    (∀ b ∈ bl, blockWf b = true) ∧ ∃ y, writeRest s bl = .ok y := by
+  induction fuel generalizing s bytes used bl u with
+  | zero => simp [readRest] at h
+  | succ fuel ih =>
+    simp only [readRest] at h
+    cases hrb : readBlock bytes with
+    | error e => rw [hrb] at h; cases h
+    | ok v =>
+      obtain ⟨last, b, rest⟩ := v
+      rw [hrb] at h; dsimp only at h
+      obtain ⟨w, ⟨x, hx, _⟩, hrest⟩ := readBlock_sound bytes hb last b rest hrb
+      cases hc : checkUnique s b with
+      | error e => rw [hc] at h; cases h
+      | ok s' =>
+        rw [hc] at h; dsimp only at h
+        split at h
+        · rename_i hl
+          cases h
+          subst hl
+          refine ⟨by intro q hq; simp at hq; subst hq; exact w, x ++ [], ?_⟩
+          simp only [writeRest, hc, List.isEmpty_nil, hx]
+        · rename_i hl
+          cases hr : readRest fuel s' rest (used + (bytes.length - rest.length)) with
+          | error e => rw [hr] at h; cases h
+          | ok v2 =>
+            obtain ⟨bs, u2⟩ := v2
+            rw [hr] at h
+            obtain ⟨hw, y, hy⟩ := ih s' rest hrest _ bs u2 hr
+            have hne := readRest_nonempty _ _ _ _ _ _ hr
+            cases h
+            have hemp : bs.isEmpty = false := by cases bs <;> simp_all
+            have hlast : last = false := by simpa using hl
+            subst hlast
+            refine ⟨?_, x ++ y, ?_⟩
+            · intro q hq
+              simp only [List.mem_cons] at hq
+              rcases hq with rfl | hq
+              · exact w
+              · exact hw q hq
+            · simp only [writeRest, hc, hemp, hx, hy]
+
+/-- **The converse direction.**  Any byte sequence the reader accepts yields a block list that the
+    writer accepts, and reading what the writer produces returns an equal list. -/
+theorem read_then_write_then_read (bytes : List Nat) (hb : bytesOk bytes = true) (bl : List Block) (n : Nat)
+    (h : readBlocks bytes = .ok (bl, n)) :
+    ∃ out, writeBlocks bl = .ok out ∧ readBlocks out = .ok (bl, out.length) := by
+  have key : (∀ b ∈ bl, blockWf b = true) ∧ ∃ out, writeBlocks bl = .ok out := by
+    unfold readBlocks at h
+    split at h
+    · cases h
+    split at h
+    · cases h
+    split at h
+    · rename_i last si rest hrb
+      have hbd : bytesOk (bytes.drop 4) = true := bytesOk_drop 4 hb
+      obtain ⟨w, ⟨x, hx, _⟩, hrest⟩ := readBlock_sound _ hbd last (.streaminfo si) rest hrb
+      split at h
+      · rename_i hl
+        cases h
+        subst hl
+        refine ⟨by intro q hq; simp at hq; subst hq; exact w, [0x66, 0x4C, 0x61, 0x43] ++ x ++ [], ?_⟩
+        simp only [writeBlocks, List.isEmpty_nil, hx, writeRest]
+      · rename_i hl
+        cases hr : readRest (bytes.length + 1) {} rest (bytes.length - rest.length) with
+        | error e => rw [hr] at h; cases h
+        | ok v2 =>
+          obtain ⟨bs, u2⟩ := v2
+          rw [hr] at h
+          obtain ⟨hw, y, hy⟩ := readRest_sound _ _ rest hrest _ bs u2 hr
+          have hne := readRest_nonempty _ _ _ _ _ _ hr
+          cases h
+          have hemp : bs.isEmpty = false := by cases bs <;> simp_all
+          have hlast : last = false := by simpa using hl
+          subst hlast
+          refine ⟨?_, [0x66, 0x4C, 0x61, 0x43] ++ x ++ y, ?_⟩
+          · intro q hq
+            simp only [List.mem_cons] at hq
+            rcases hq with rfl | hq
+            · exact w
+            · exact hw q hq
+          · simp only [writeBlocks, hemp, hx, hy]
+    · cases h
+  obtain ⟨hw, out, ho⟩ := key
+  refine ⟨out, ho, ?_⟩
+  have := blocklist_roundtrip bl hw out ho []
+  simpa using this
 
 end Flac.C11
